@@ -47,7 +47,7 @@ fn generators(cfg: &Cfg) -> Vec<Generator> {
     let fixtures = fixtures().len() as u64;
     vec![
         Generator { name: "fixtures", total: cfg.tier.pick(fixtures.min(28), fixtures), run: run_fixture, case_cpu_limit_s: 600 },
-        Generator { name: "generated", total: cfg.tier.pick(36, 600), run: run_generated, case_cpu_limit_s: 600 },
+        Generator { name: "generated", total: cfg.tier.pick(64, 1_200), run: run_generated, case_cpu_limit_s: 600 },
     ]
 }
 
@@ -186,8 +186,55 @@ fn run_generated(cfg: &Cfg, index: u64, stats: &mut Stats) {
     let mut rng = Rng::for_case(cfg.seed, "C16/generated", index);
     let program = e1::generate::generate(cfg.seed, "C16", index);
     let style = e1::print::Style::plain();
-    let kind = index % 4;
+    let kind = index % 8;
+    let prelude = crate::prelude::MiniPrelude::core().text();
     let (text, tag) = match kind {
+        | 4 => {
+            // one pattern re-binds several names of its block: which duplicate is reported first?
+            let k = 2 + rng.below(5);
+            let mut names: Vec<String> = (0..k).map(|i| format!("{}{}", ["x", "y", "zed", "w'", "acc", "n", "q"][i % 7], i)).collect();
+            let mut body = String::from("begin\n");
+            for n in &names {
+                body.push_str(&format!("let {n} = () that\n"));
+            }
+            rng.shuffle(&mut names);
+            let units: Vec<&str> = names.iter().map(|_| "()").collect();
+            body.push_str(&format!("let ({}) = ({}) that\n! exit 0\nend\n", names.join(", "), units.join(", ")));
+            (format!("{prelude}{body}"), "rejected-several-duplicate-definitions")
+        }
+        | 5 => {
+            // several unbound names / unknown constructors in one term
+            let k = 2 + rng.below(5);
+            let names: Vec<String> = (0..k).map(|i| format!("{}{}", ["ghost", "u", "missing", "t'", "k"][i % 5], i)).collect();
+            let body = match rng.below(3) {
+                | 0 => format!("let t = ({}) in\n! exit 0\n", names.join(", ")),
+                | 1 => format!("begin\n{}! exit 0\nend\n", names.iter().map(|n| format!("let v_{n} = {n} that\n", n = n.replace('\'', ""))).collect::<String>()),
+                | _ => format!("! write_line {} {{ ! exit {} }}\n", names[0], names[1]),
+            };
+            (format!("{prelude}{body}"), "rejected-several-unbound-names")
+        }
+        | 6 => {
+            // a comatch that leaves several destructors without an arm and a match that leaves several constructors
+            let k = 3 + rng.below(5);
+            let dtors: Vec<String> = (0..k).map(|i| format!(".{}{}", ["north", "east", "south", "west", "up", "down", "in", "out"][i % 8], i)).collect();
+            let ctors: Vec<String> = (0..k).map(|i| format!("+{}{}", ["Red", "Green", "Blue", "Cyan", "Plum", "Gold", "Rust", "Teal"][i % 8], i)).collect();
+            let mut body = String::from("begin\n");
+            body.push_str(&format!("def K : CType = codata {} end that\n", dtors.iter().map(|d| format!("| {d} : Ret Int64 ")).collect::<String>()));
+            body.push_str(&format!("def D : VType = data {} end that\n", ctors.iter().map(|c| format!("| {c} : Unit ")).collect::<String>()));
+            let keep = rng.below(2);
+            if rng.chance(1, 2) {
+                body.push_str(&format!("let o : Thk K = {{ comatch {} end }} that\n", dtors.iter().take(keep).map(|d| format!("| {d} => ret 1 ")).collect::<String>()));
+            } else {
+                body.push_str(&format!("let f = {{ fn (d : D) => match d {} end }} that\n", ctors.iter().take(keep + 1).map(|c| format!("| {c}() => ret 1 ")).collect::<String>()));
+            }
+            body.push_str("! exit 0\nend\n");
+            (format!("{prelude}{body}"), "rejected-several-missing-arms")
+        }
+        | 7 => {
+            // a random parse-valid term that is ill-formed in some earlier phase (directive, desugaring, name resolution)
+            let term = crate::e2::grammar::source(&mut rng, false);
+            (if rng.chance(1, 2) { format!("{prelude}{term}") } else { term }, "grammar-term")
+        }
         | 0 => (e1::print::program_text(&program, &style, index), "accepted"),
         | 1 => {
             let (_, sites, _) = e1::print::program_text_mut(&program, &style, index, None);
